@@ -6,10 +6,10 @@ def wires(inp, pairs):
     # pairs: (stream spec, field)
     out=[]
     for sp,fld in pairs:
-        out.append(f'ensures[C06] "input-{fld.lower()}" len({sp}) == len({inp}) && (forall k :: 0 <= k && k < len({inp}) ==> {sp}[k] == {inp}[k].{fld})')
+        out.append(f'guarantees[C06] "input-{fld.lower()}" len({sp}) == len({inp}) && (forall k :: 0 <= k && k < len({inp}) ==> {sp}[k] == {inp}[k].{fld})')
     return out
 def rule(label, rng, cond, pos, act):
-    return f'ensures[C06] "{label}" forall k :: 0 <= k && k < {rng} ==> ({cond} ==> result[{pos}] == {act})'
+    return f'guarantees[C06] "{label}" forall k :: 0 <= k && k < {rng} ==> ({cond} ==> result[{pos}] == {act})'
 T={}
 def add(pkg,name,lines): T[(pkg,name)]=lines
 R=lambda n,i=0,j=None: f'res({n}, {i})' if j is None else f'res({n}, {i}, {j})'
@@ -109,7 +109,7 @@ for (pkg,name),fn in T.items():
     # drop previous C06 lines of this block
     blk_end=s.index('\n\n', m.end()) if '\n\n' in s[m.end():] else len(s)
     block=s[m.end():blk_end]
-    block='\n'.join(l for l in block.split('\n') if not l.startswith('//@ ensures[C06]'))
+    block='\n'.join(l for l in block.split('\n') if not l.startswith('//@ ensures[C06]') and not l.startswith('//@ guarantees[C06]'))
     lines=['//@ '+l for l in fn(inp)]
     s=s[:m.end()]+'\n'.join(lines)+'\n'+block+s[blk_end:]
     open(cf,'w').write(s)
